@@ -400,10 +400,25 @@ impl<'a> FnGen<'a> {
                 defs.push(assign(t, reg("RSP"), e_bin(op, e_reg("RSP"), e_const(c, 8))));
             }
             _ => {
-                // assignment depending on its own target
+                // assignment depending on its own target; sometimes a run of directly consecutive updates of one register
+                // (accumulator code: the pre-pass of expression propagation merges such runs into one assignment)
                 let r = *self.rng.pick(REGS8);
                 let c = self.small_const();
                 defs.push(assign(t, reg(r), e_bin(BinOpType::IntAdd, e_reg(r), e_const(c, 8))));
+                if self.rng.chance(1, 3) {
+                    let n = self.rng.range_usize(1, 13);
+                    for _ in 0..n {
+                        let t = self.fresh("def");
+                        let op = *self.rng.pick(&[BinOpType::IntAdd, BinOpType::IntXOr, BinOpType::IntSub, BinOpType::IntOr, BinOpType::IntAdd]);
+                        let operand = match self.rng.below(10) {
+                            0..=4 => e_const(self.small_const(), 8),
+                            5..=7 => e_reg(*self.rng.pick(REGS8)),
+                            _ => self.e8(2),
+                        };
+                        let e = if self.rng.chance(1, 5) { e_bin(op, operand, e_reg(r)) } else { e_bin(op, e_reg(r), operand) };
+                        defs.push(assign(t, reg(r), e));
+                    }
+                }
             }
         }
     }
@@ -889,7 +904,7 @@ pub fn check_callother_project(base: &Project, state_seed: u64, n_states: usize,
 }
 
 fn run(cfg: &Cfg) -> Report {
-    let shards = cfg.tier.pick(256usize, 2048usize);
+    let shards = cfg.tier.pick(1024usize, 2048usize);
     let per_shard = cfg.tier.pick(40usize, 50usize);
     let n_states = cfg.tier.pick(16usize, 64usize);
     par_shards(cfg, "c10", shards, |idx, rng, rep| {
